@@ -337,6 +337,18 @@ let rec judge_case (u : uni) (case : sx) (obs : sx list) : verdict =
             if guard <> "guard-ok" then fail v "prop-guard" guard
         | L (A "panic" :: A m :: _) :: _ -> fail v "panic" ("EncodeObject panicked: " ^ string_of_hex m)
         | _ -> fail v "harness" ("unparsable observation"))
+   | L (A "hammer" :: A tname :: A _mode :: A _ms :: vxs) ->
+       let nsid = n_of_int (sid_of u tname) in
+       let want = List.map (fun vx -> List.length (encode_spec u.env nsid (val_of_sx vx))) vxs in
+       (match obs with
+        | [L (A "ref" :: rs); L [A "badsize"; A bs]; L [A "badbytes"; A bb]; L [A "errors"; A er]; L [A "panics"; A pn]; L [A "calls"; A _]] ->
+            let got = List.map (function A x -> int_of_string x | _ -> -1) rs in
+            if got <> want then fail v "corr-size" "sequential reference sizes differ from the model";
+            if bs <> "0" then fail v "prop-size" (Printf.sprintf "%s concurrent EncodedSize calls returned a wrong size" bs);
+            if bb <> "0" then fail v "corr-bytes" (Printf.sprintf "%s concurrent EncodeObject calls wrote wrong bytes" bb);
+            if er <> "0" then fail v "prop-fit-rejected" (Printf.sprintf "%s concurrent EncodeObject calls failed on a sufficient buffer" er);
+            if pn <> "0" then fail v "panic" (Printf.sprintf "%s concurrent calls panicked" pn)
+        | _ -> fail v "harness" "unparsable observation")
    | L [A "rt"; A tname; A _mode; vx] ->
        let sid = sid_of u tname in
        let nsid = n_of_int sid in
